@@ -35,6 +35,26 @@ fn name_eq(a: &Name, b: &Name) -> bool {
     a.eq_case(b) && a.is_fqdn() == b.is_fqdn()
 }
 
+/// IANA number of a class variant (own table: hickory's conversion is part of what is checked).
+fn class_num(c: DNSClass) -> u16 {
+    match c {
+        DNSClass::IN => 1,
+        DNSClass::CH => 3,
+        DNSClass::HS => 4,
+        DNSClass::NONE => 254,
+        DNSClass::ANY => 255,
+        DNSClass::OPT(p) => p.max(512),
+        DNSClass::Unknown(v) => v,
+    }
+}
+
+/// Variant-level equality (not through hickory's integer conversions, which are part of what is
+/// checked); BADVERS and BADSIG are two names of the number 16.
+fn rcode_eq(a: ResponseCode, b: ResponseCode) -> bool {
+    let alias = |c: ResponseCode| if c == ResponseCode::BADVERS { ResponseCode::BADSIG } else { c };
+    alias(a) == alias(b)
+}
+
 fn record_diff(a: &Record, b: &Record) -> Option<&'static str> {
     if !name_eq(&a.name, &b.name) {
         return Some("owner");
@@ -42,7 +62,7 @@ fn record_diff(a: &Record, b: &Record) -> Option<&'static str> {
     if a.record_type() != b.record_type() {
         return Some("type");
     }
-    if u16::from(a.dns_class) != u16::from(b.dns_class) {
+    if a.dns_class != b.dns_class {
         return Some("class");
     }
     if a.ttl != b.ttl {
@@ -70,14 +90,14 @@ fn message_diff(a: &Message, b: &Message, derived_rcode_high: bool) -> Option<St
     let hdr = [
         ("id", x.id != y.id),
         ("qr", x.message_type != y.message_type),
-        ("opcode", u8::from(x.op_code) != u8::from(y.op_code)),
+        ("opcode", x.op_code != y.op_code),
         ("aa", x.authoritative != y.authoritative),
         ("tc", x.truncation != y.truncation),
         ("rd", x.recursion_desired != y.recursion_desired),
         ("ra", x.recursion_available != y.recursion_available),
         ("ad", x.authentic_data != y.authentic_data),
         ("cd", x.checking_disabled != y.checking_disabled),
-        ("rcode", u16::from(x.response_code) != u16::from(y.response_code)),
+        ("rcode", !rcode_eq(x.response_code, y.response_code)),
     ];
     if let Some((f, _)) = hdr.iter().find(|(_, d)| *d) {
         return Some(format!("header:{f}"));
@@ -89,7 +109,7 @@ fn message_diff(a: &Message, b: &Message, derived_rcode_high: bool) -> Option<St
         if !name_eq(&p.name, &q.name) {
             return Some("question:name".into());
         }
-        if p.query_type != q.query_type || u16::from(p.query_class) != u16::from(q.query_class) {
+        if p.query_type != q.query_type || p.query_class != q.query_class {
             return Some("question:type-class".into());
         }
     }
@@ -124,7 +144,7 @@ fn message_diff(a: &Message, b: &Message, derived_rcode_high: bool) -> Option<St
             if !name_eq(&p.name, &q.name) {
                 return Some("tsig:name".into());
             }
-            if u16::from(p.dns_class) != u16::from(q.dns_class) || p.ttl != q.ttl {
+            if p.dns_class != q.dns_class || p.ttl != q.ttl {
                 return Some("tsig:class-ttl".into());
             }
             if p.data != q.data {
@@ -265,6 +285,18 @@ impl Spec {
             m.add_additional(x.record.clone());
         }
         let mut meta = MetaExpect::default();
+        meta.questions = Some(match self.q {
+            0 => vec![],
+            1 => vec![(1, 1)],
+            2 => vec![(255, 3)],
+            _ => vec![(28, 1), (6, 255)],
+        });
+        // RFC 1035 4.1.1 from the numbers of the case, not from hickory's enums
+        let f = self.flags as u16;
+        meta.header = Some((
+            id,
+            (f & 1) << 15 | (self.opcode as u16) << 11 | (f >> 1 & 1) << 10 | (f >> 2 & 1) << 9 | (f >> 3 & 1) << 8 | (f >> 4 & 1) << 7 | (f >> 5 & 1) << 5 | (f >> 6 & 1) << 4 | (self.rcode & 0xf),
+        ));
         if self.edns >= 0 {
             // Edns::rcode_high stays 0 as a user leaves it: the encoder has to commit the upper rcode bits
             let e = &al.edns[self.edns as usize];
@@ -308,9 +340,14 @@ fn judge_d1(m: &Message, exp: &[Vec<XRec>; 3], meta: Option<&MetaExpect>, l: &mu
         return l.violation("wire:question-count", "QDCOUNT differs from the questions assembled", &wcase);
     }
     let mut compressed = false;
-    for (wq, q) in w.questions.iter().zip(m.queries.iter()) {
-        if wq.name != labels_of(&q.name) || wq.qtype != u16::from(q.query_type) || wq.qclass != u16::from(q.query_class) {
-            return l.violation("wire:question", "question on the wire differs from the one assembled", &wcase);
+    for (k, (wq, q)) in w.questions.iter().zip(m.queries.iter()).enumerate() {
+        // the numbers the case intends (when the builder states them), else hickory's own numbering
+        let (qt, qc) = match meta.and_then(|x| x.questions.as_ref()).and_then(|v| v.get(k)) {
+            Some(n) => *n,
+            None => (u16::from(q.query_type), class_num(q.query_class)),
+        };
+        if wq.name != labels_of(&q.name) || wq.qtype != qt || wq.qclass != qc {
+            return l.violation("wire:question", &format!("question on the wire (type {}, class {}) differs from the one assembled (type {qt}, class {qc})", wq.qtype, wq.qclass), &wcase);
         }
     }
     let extra_ar = m.edns.is_some() as usize + m.signature.is_some() as usize;
@@ -329,7 +366,7 @@ fn judge_d1(m: &Message, exp: &[Vec<XRec>; 3], meta: Option<&MetaExpect>, l: &mu
             if wr.rdata_start - 10 - wr.start < wire_len(&ol) {
                 compressed = true;
             }
-            if wr.rtype != x.rtype || wr.class != u16::from(r.dns_class) || wr.ttl != r.ttl {
+            if wr.rtype != x.rtype || wr.class != class_num(r.dns_class) || wr.ttl != r.ttl {
                 return l.violation("wire:fixed-fields", &format!("type/class/ttl on the wire differ for a type {} record", x.rtype), &wcase);
             }
             let raw = &bytes[wr.rdata_start..wr.rdata_end];
@@ -362,8 +399,17 @@ fn judge_d1(m: &Message, exp: &[Vec<XRec>; 3], meta: Option<&MetaExpect>, l: &mu
         }
     }
 
-    // (a') the OPT and TSIG records against their RFC form
+    // (a') the header word, the OPT and TSIG records against their RFC form
     if let Some(meta) = meta {
+        if let Some((id, flags)) = meta.header {
+            if w.header.id != id || w.header.flags != flags {
+                return l.violation(
+                    "wire:header",
+                    &format!("ID/flags on the wire {:#06x}/{:#06x}, RFC 1035 form of the assembled header {:#06x}/{:#06x}", w.header.id, w.header.flags, id, flags),
+                    &wcase,
+                );
+            }
+        }
         if let Some((key, what)) = ext::check_meta(&bytes, &w.additionals[exp[2].len()..], meta) {
             return l.violation(&key, &what, &wcase);
         }
@@ -383,7 +429,7 @@ fn judge_d1(m: &Message, exp: &[Vec<XRec>; 3], meta: Option<&MetaExpect>, l: &mu
     if let Some(f) = message_diff(m, &dec, true) {
         return l.violation(&format!("roundtrip-differs:{f}"), "decode(encode(m)) != m", &wcase);
     }
-    if u16::from(m.metadata.response_code) == 16 && m.metadata.response_code != dec.metadata.response_code {
+    if m.metadata.response_code == ResponseCode::BADVERS && m.metadata.response_code != dec.metadata.response_code {
         l.outcome("obs:rcode-16-decodes-as-BADSIG-not-BADVERS");
     }
     let ext = m.edns.is_some() || m.signature.is_some() || u16::from(m.metadata.response_code) > 15;
@@ -395,7 +441,7 @@ fn judge_d1(m: &Message, exp: &[Vec<XRec>; 3], meta: Option<&MetaExpect>, l: &mu
 
 // ---- compression sweeps ------------------------------------------------------------------
 
-const SWEEPS: [&str; 8] = ["long-names", "same-owner", "distinct-owners", "ns-targets", "mx-mixed-case", "srv-target-then-owner", "deep-suffixes", "soa-names"];
+const SWEEPS: [&str; 9] = ["odd-labels", "long-names", "same-owner", "distinct-owners", "ns-targets", "mx-mixed-case", "srv-target-then-owner", "deep-suffixes", "soa-names"];
 
 fn xr(owner: &str, ttl: u32, rtype: u16, data: RData, wire: Vec<u8>) -> XRec {
     XRec { record: Record::from_rdata(hn(owner), ttl, data), rtype, wire }
@@ -413,6 +459,19 @@ fn sweep(variant: &str, n: usize) -> (Message, [Vec<XRec>; 3]) {
             "same-owner" => {
                 let (d, w) = a4(i);
                 exp[sec].push(xr("a.z.", i as u32, 1, d, w));
+            }
+            // labels that are not host-name text: wildcard, a dot / NUL / 0xff / space inside a label, octets
+            // that differ from another label only in bit 0x20 without being letters ('[' vs '{', '@' vs '`'),
+            // a single-octet label 0x00, 127 one-octet labels. Record i is owned by name x and carries
+            // an NS target y, (x, y) running through all ordered pairs, so every name meets every other one
+            // as an earlier compression candidate.
+            "odd-labels" => {
+                const ODD: [&str; 11] = [
+                    "*.a.z.", "%2a%2e.a.z.", "a%2eb.z.", "%00.z.", "%00%ff.Z.", "%5b.z.", "%7b.z.", "%40x.z.", "%60x.z.", "a%20b.a.z.",
+                    "c.c.c.c.c.c.c.c.c.c.c.c.c.c.c.c.c.c.c.c.c.c.c.c.c.c.c.c.c.c.c.c.c.c.c.c.c.c.c.c.c.c.c.c.c.c.c.c.c.c.c.c.c.c.c.c.c.c.c.c.c.c.c.c.c.c.c.c.c.c.c.c.c.c.c.c.c.c.c.c.c.c.c.c.c.c.c.c.c.c.c.c.c.c.c.c.c.c.c.c.c.c.c.c.c.c.c.c.c.c.c.c.c.c.c.c.c.c.c.c.c.c.c.c.c.c.c.",
+                ];
+                let (x, y) = (ODD[(i / ODD.len()) % ODD.len()], ODD[i % ODD.len()]);
+                exp[sec].push(xr(x, 1, 2, RData::NS(NS(hn(y))), wn(y)));
             }
             // owners of 193..255 wire octets (first label 1..63 octets) sharing a 191-octet suffix; every
             // third owner spells the suffix in another case (must not be merged with the first spelling)
@@ -794,20 +853,30 @@ fn main() {
          each with its RDATA wire form hand-written from the RFC; owners {., a.z., A.z., b.a.z., <63>.z.} x classes {IN,CH,NONE,ANY,4096} \
          x TTL {0,1,2^31-1,2^31,2^32-1}): ALL bodies of <=2 records (quick, thorough on the larger alphabet) / <=3 records (thorough, \
          compact alphabet) in ALL section placements x questions {none, a.z. A, A.Z. ANY CH, two} x EDNS/TSIG combinations; the full EDNS \
-         (15 variants) x TSIG (4 variants) product on 1-record bodies; ALL 2^7 header flag combinations x 7 opcodes x 11 rcodes \
+         (17 variants) x TSIG (4 variants) product on 1-record bodies; ALL 2^7 header flag combinations x 7 opcodes x 11 rcodes \
          (extended ones with EDNS); UPDATE messages with <=2 records from {empty-RDATA records of 6 types x 3 classes, 10 ordinary}; \
-         compression sweeps: 8 families x every n = 0..200 records, first-occurrence offsets 0x3ff0..0x4010 x 2 variants. Oracle: \
-         independent walker reads the encoding completely, finds the assembled names case-sensitively and the RFC RDATA octets \
-         (after name expansion for NS/CNAME/PTR/MX/SOA); Message::from_vec(Message::to_vec(m)) equals m field by field (names eq_case, \
-         TTLs, numeric class/rcode). Direction 2: every message-shaped string of the C01 families (header shape + ALL bodies of \
-         length <=2/3; ALL strings over S of length <=6/7 as body; ALL strings (<=2/3 octets, S: <=5/6) as RDATA of every type with a \
-         dedicated decoder in plain and UPDATE messages; complete single-edit neighbourhoods of the message seed corpus; 22 growth \
-         families) that decodes and re-encodes: decode(encode(decode(b))) == decode(b), and RDATA of every type other than \
-         NS/CNAME/PTR/MX/SOA/obsolete-1035/OPT is octet-identical (inputs with a compression pointer inside a name that RFC 3597 \
-         forbids to compress are logged, not judged). distinct_nontrivial: direction 1 = distinct encodings that contain a \
-         compression pointer, EDNS, TSIG or an extended rcode; direction 2 = distinct accepted inputs with at least one question or \
-         record (hash-counted for strings <= 2 octets, edits and growth; longer strings are distinct by construction: see \
-         outcome_classes['*nontrivial-by-construction']).",
+         compression sweeps: 9 families (incl. non-host-name labels) x every n = 0..200 records, first-occurrence offsets 0x3ff0..0x4010 x 2 variants; VALUE SWEEPS: \
+         every value of the small fields a message carries: 16 opcodes x 4,096 rcodes, ALL 65,536 message ids / question types / \
+         question classes / record classes / unknown record types / types in an NSEC bitmap / CERT types / SvcParam keys / EDNS \
+         payload sizes / EDNS Z+DO words / EDNS option codes / TSIG error codes, all 256 EDNS versions, ECS source x scope 33x33 (v4) \
+         and 129x3 (v6), all 128 DAU subsets, option lengths {0,1,2,255,256,257,4096,32768,65000} x 3 kinds, 0..64 options, TTL 2^k and \
+         2^k-1, a 11x6x3x5x2x8x3 TSIG field product; enum values are chosen by IANA tables of the check, not by hickory's conversions. \
+         Oracle: independent walker reads the encoding completely; ID and flags word, question numbers, owner names (case-sensitive), \
+         TYPE/CLASS/TTL and the RFC RDATA octets (after name expansion for NS/CNAME/PTR/MX/SOA) of every record, CLASS/TTL/options of \
+         the OPT record (RFC 6891) and the RDATA of the TSIG record (RFC 8945) equal what was assembled; \
+         Message::from_vec(Message::to_vec(m)) equals m field by field (names eq_case, TTLs, enum variants). Direction 2: every \
+         message-shaped string of the C01 families (header shape + ALL bodies of length <=2/3; ALL strings over S of length <=6/7 as \
+         body; ALL strings (<=2/3 octets, S: <=5/6) as RDATA of every type with a dedicated decoder in plain and UPDATE messages; \
+         complete single-edit neighbourhoods of the message and RDATA seed corpus; f5: ALL 65,536 values of every 16-bit window of \
+         one-record messages around the RFC RDATA of the alphabet (quick: windows starting in the first 8 RDATA octets, fixed fields on \
+         every 8th seed; thorough: every window of every entry); structure-aware edits (16-bit windows x 8 boundary values; thorough: \
+         S-substitutions, truncations) of 17 KiB..64 KiB seeds (thorough: every offset of the 17 KiB seed; else the first/last 256 \
+         octets and 0x3f80..0x4080); 22 growth families) that decodes and re-encodes: decode(encode(decode(b))) == decode(b), and \
+         RDATA of every type other than NS/CNAME/PTR/MX/SOA/obsolete-1035/OPT is octet-identical (inputs with a compression pointer \
+         inside a name that RFC 3597 forbids to compress are logged, not judged). distinct_nontrivial: direction 1 = distinct \
+         encodings that contain a compression pointer, EDNS, TSIG or an extended rcode; direction 2 = distinct accepted inputs with at \
+         least one question or record (hash-counted for strings <= 2 octets, edits and growth; longer strings and f5/large edits are \
+         distinct by construction: see outcome_classes['*nontrivial-by-construction']).",
     );
     ctx.assume("vref::wire (RFC 1035 4.1 walker) and c01::wirex (RFC layouts of name-bearing RDATA) are the reference for what is on the wire");
     ctx.assume("the RDATA wire forms of the record alphabet were written by hand from RFC 1035, 2782, 3403, 4034, 4255, 4398, 5155, 6698, 7344, 7477, 7929, 8162, 8659, 9460");
@@ -996,7 +1065,6 @@ fn main() {
         judge_d1(&m, &exp, None, l, &|| json!({"dir": 1, "family": "offset", "variant": d[0], "target": target}));
     });
 
-    if std::env::var("C02_TIMING").is_ok() { eprintln!("t before value sweeps {:.1}", ctx.elapsed_s()); }
     // value sweeps: every value of the small fields a message can carry
     let mut vitems: Vec<(&'static str, u64, u64)> = vec![];
     for v in ext::VALUE_SWEEPS.iter() {
@@ -1021,7 +1089,6 @@ fn main() {
         }
     });
 
-    if std::env::var("C02_TIMING").is_ok() { eprintln!("t before d2 {:.1}", ctx.elapsed_s()); }
     // ---- direction 2 -------------------------------------------------------------------------
     let mut blocks: Vec<Block> = vec![];
     let (l1, l_body, l_rd) = if thorough { (3, 7, 6) } else { (2, 6, 5) };
@@ -1072,7 +1139,6 @@ fn main() {
         });
         flush(t, "f3", l);
     });
-    if std::env::var("C02_TIMING").is_ok() { eprintln!("t before f5 {:.1}", ctx.elapsed_s()); }
     // f5: all 65,536 values of every 16-bit window of one-record messages around the RFC RDATA of
     // the alphabet. Thorough: every entry, every window from the flags word on. Quick: the first
     // entry of every type, the windows that start in the first 8 RDATA octets, and for every 8th
@@ -1115,7 +1181,6 @@ fn main() {
         flush(t, "f5", l);
     });
 
-    if std::env::var("C02_TIMING").is_ok() { eprintln!("t before large {:.1}", ctx.elapsed_s()); }
     // f3L: structure-aware single edits of large seeds (17 KiB .. 64 KiB)
     let large = ext::large_seeds(&al, if thorough { &[0, 1, 2] } else { &[0] });
     ctx.set("d2_large_seeds", json!(large.iter().map(|s| json!({"tag": s.tag, "len": s.bytes.len()})).collect::<Vec<_>>()));
@@ -1152,7 +1217,6 @@ fn main() {
         flush(t, "large", l);
     });
 
-    if std::env::var("C02_TIMING").is_ok() { eprintln!("t before f4 {:.1}", ctx.elapsed_s()); }
     // f4: growth families
     let mut gitems: Vec<(&'static str, bool, u32)> = vec![];
     for f in families::GROWTH_FAMILIES.iter() {
